@@ -1152,6 +1152,11 @@ class Engine:
 
     # ---------------------------------------------------------------- calls
     def do_call(self, frame, callee_text, args, dest_ty, arg_tys=None):
+        m_ind = re.match(r'^(copy|move) (_\d+)$', callee_text.strip())
+        if m_ind and frame is not None:
+            # indirect call through a local holding a fn item / fn pointer / closure
+            f = self.eval_operand(frame, (m_ind.group(1), P.parse_place(m_ind.group(2))))
+            return self.call_callable(f, list(args))
         if frame is not None and frame.env:
             callee_text = subst_type(frame.env, callee_text)
         c = parse_callee(callee_text)
